@@ -225,6 +225,22 @@ template<class C> static void observeTable(C& c)
     printf("%s%d:%d", cnt ? "," : "", keyOf(i), valOf(i));
   }
   if(cnt == 0) printf("-");
+  // the const overloads `Iterator operator++() const` / `operator--() const` return the neighbours without moving
+  {
+    bool okConst = true;
+    long n = 0;
+    for(typename C::Iterator i = c.begin(), end = c.end(); i != end && n < 4096; ++n)
+    {
+      const typename C::Iterator ci = i;
+      typename C::Iterator nx = ++ci;
+      ++i;
+      if(nx != i || ci == i) { okConst = false; break; }
+      const typename C::Iterator cn = i;
+      typename C::Iterator pv = --cn;
+      if(pv != ci) { okConst = false; break; }
+    }
+    if(!okConst) printf(" CONST-ITER-MISMATCH");
+  }
   printf(" f=");
   for(int k = 0; k < g_dom; ++k)
   {
@@ -390,6 +406,20 @@ int main()
       if(kind < 0) { printf("bad-op"); hxEndLine(); continue; }
       configure(kind, (int)hxNum(l, 2), (int)hxNum(l, 3));
       observe(-1);
+      continue;
+    }
+    if(hxIs(l, "hashnum", 3))
+    {
+      // the integral overloads of hash() in Base.hpp: width, signedness, bit pattern
+      unsigned long w = hxNum(l, 1), sg = hxNum(l, 2);
+      unsigned long long x = strtoull(l.tok[3], 0, 10);
+      usize r;
+      if(w == 8) r = sg ? hash((int8)(uint8)x) : hash((uint8)x);
+      else if(w == 16) r = sg ? hash((int16)(uint16)x) : hash((uint16)x);
+      else if(w == 32) r = sg ? hash((int32)(uint32)x) : hash((uint32)x);
+      else r = sg ? hash((int64)(uint64)x) : hash((uint64)x);
+      printf("num %lu", (unsigned long)r);
+      hxEndLine();
       continue;
     }
     if(hxIs(l, "hashstr", 1))
